@@ -148,6 +148,11 @@ type histCase struct {
 	Static  []staticSvc `json:"static"`
 	Ops     []hop       `json:"ops"`
 	FreeRun bool        `json:"free_run,omitempty"` // events are forwarded by a concurrent goroutine as they appear (store and controller really run concurrently)
+	// Streams: after Ops, these op lists run concurrently, one goroutine each, as the three discovery streams do in production
+	// (stream 0: configs, stream 1: endpoints of services 0..1; stream 2: dependency changes of services 2..3, so that the
+	// outcome does not depend on how the streams interleave). Forces FreeRun.
+	Streams    [][]hop `json:"streams,omitempty"`
+	FwdDelayUs int     `json:"forward_delay_us,omitempty"` // the forwarder waits this long per event: the store's 32-slot channel fills up
 }
 
 var svcNames = []string{"a", "b", "c", "d"} // "d" is never a dependency in most histories ("unknown")
@@ -251,12 +256,18 @@ func checkHist(c histCase, uniq string) (inf histInfo, v *verdict) {
 	}
 	stopFwd := make(chan struct{})
 	fwdDone := make(chan struct{})
+	if len(c.Streams) > 0 {
+		c.FreeRun = true
+	}
 	if c.FreeRun {
 		go func() {
 			defer close(fwdDone)
 			for {
 				select {
 				case e := <-evtCh:
+					if c.FwdDelayUs > 0 {
+						time.Sleep(time.Duration(c.FwdDelayUs) * time.Microsecond)
+					}
 					ctlCh <- e // an event taken from the store is always delivered
 				case <-stopFwd:
 					return
@@ -280,10 +291,8 @@ func checkHist(c histCase, uniq string) (inf histInfo, v *verdict) {
 		return true
 	}
 
-	for i, o := range c.Ops {
-		if !guard() {
-			return inf, &verdict{"controller-stuck", fmt.Sprintf("before step %d: the controller did not take an event for 20s\n%s", i, vh.Stacks())}
-		}
+	// apply updates the model for one operation and returns the call on the store (nil: nothing to call)
+	apply := func(o hop) (call func()) {
 		switch o.Op {
 		case "dep":
 			var add, rem []*service.Service
@@ -303,19 +312,19 @@ func checkHist(c histCase, uniq string) (inf histInfo, v *verdict) {
 					everRemoved[name(s)] = true
 				}
 			}
-			store.VerifDependencyUpdate(add, rem)
+			return func() { store.VerifDependencyUpdate(add, rem) }
 		case "cfg":
 			cfg := mkCfg(o.Cfg)
 			if m := model[name(o.Svc)]; m != nil {
 				if o.Cfg == 0 {
 					if m.cfgValid {
-						continue // invalid configs are only generated before the first valid one (see DESIGN)
+						return nil // invalid configs are only generated before the first valid one (see DESIGN)
 					}
 					inf.invalidFirst++
 				}
 				m.cfg, m.cfgValid = cfg, o.Cfg != 0
 			}
-			store.VerifSvcConfigUpdate(name(o.Svc), cfg)
+			return func() { store.VerifSvcConfigUpdate(name(o.Svc), cfg) }
 		case "eps":
 			var add, rem []*service.Endpoint
 			for _, e := range o.EpAdd {
@@ -354,14 +363,57 @@ func checkHist(c histCase, uniq string) (inf histInfo, v *verdict) {
 					m.epsAmbig = true
 				}
 			}
-			store.VerifSvcEndpointUpdate(name(o.Svc), add, rem)
-		case "pace":
+			return func() { store.VerifSvcEndpointUpdate(name(o.Svc), add, rem) }
+		}
+		return nil
+	}
+	for i, o := range c.Ops {
+		if !guard() {
+			return inf, &verdict{"controller-stuck", fmt.Sprintf("before step %d: the controller did not take an event for 20s\n%s", i, vh.Stacks())}
+		}
+		if o.Op == "pace" {
 			if c.FreeRun {
 				continue
 			}
 			if forward(o.N) < 0 {
 				return inf, &verdict{"controller-stuck", fmt.Sprintf("step %d: the controller did not take an event for 20s\n%s", i, vh.Stacks())}
 			}
+			continue
+		}
+		if call := apply(o); call != nil {
+			call()
+		}
+	}
+	if len(c.Streams) > 0 {
+		// the model is folded stream by stream (the streams touch disjoint parts of the state, see histCase), the calls
+		// run concurrently
+		calls := make([][]func(), len(c.Streams))
+		for si, st := range c.Streams {
+			for _, o := range st {
+				if call := apply(o); call != nil {
+					calls[si] = append(calls[si], call)
+				}
+			}
+		}
+		var swg sync.WaitGroup
+		startStreams := make(chan struct{})
+		for si := range calls {
+			swg.Add(1)
+			go func(si int) {
+				defer swg.Done()
+				<-startStreams
+				for _, call := range calls[si] {
+					call()
+				}
+			}(si)
+		}
+		close(startStreams)
+		sdone := make(chan struct{})
+		go func() { swg.Wait(); close(sdone) }()
+		select {
+		case <-sdone:
+		case <-time.After(60 * time.Second):
+			return inf, &verdict{"store-stuck", "concurrent discovery streams: an update handler of the store did not return for 60s\n" + vh.Stacks()}
 		}
 	}
 	if maxLag >= 2 {
@@ -630,6 +682,67 @@ func TestConvergeConcurrent(t *testing.T) {
 		vh.ClearCurrentCase()
 		vh.Rec().Case("converge-concurrent", true, vh.JSON(c))
 		vh.Rec().Sample("converge-concurrent", true, func() interface{} { return c })
+	})
+}
+
+// TestConvergeStreams: after a sequential prefix the configuration stream, the endpoint stream and the dependency stream
+// deliver their updates concurrently (separate goroutines, as in production) while the controller lags behind a slow forwarder,
+// so that handlers block on the store's full event channel.
+func TestConvergeStreams(t *testing.T) {
+	rapid.Check(t, func(t *rapid.T) {
+		c := histCase{FreeRun: true, FwdDelayUs: rapid.SampledFrom([]int{0, 20, 200, 1000}).Draw(t, "fwd")}
+		// prefix: services 0 and 1 are dependencies, sometimes already configured / populated
+		c.Ops = append(c.Ops, hop{Op: "dep", Added: []int{0, 1}})
+		for svc := 0; svc < 2; svc++ {
+			switch rapid.IntRange(0, 3).Draw(t, "pre") {
+			case 1:
+				c.Ops = append(c.Ops, hop{Op: "cfg", Svc: svc, Cfg: rapid.IntRange(0, 3).Draw(t, "pcfg")})
+			case 2:
+				c.Ops = append(c.Ops, hop{Op: "eps", Svc: svc, EpAdd: genEps(t, "peps", 3)})
+			case 3:
+				c.Ops = append(c.Ops, hop{Op: "cfg", Svc: svc, Cfg: rapid.IntRange(1, 3).Draw(t, "pcfg")}, hop{Op: "eps", Svc: svc, EpAdd: genEps(t, "peps", 3)})
+			}
+		}
+		if rapid.Bool().Draw(t, "fill") {
+			// unrelated events ahead in the queue: the channel is (nearly) full when the streams start
+			for i, n := 0, rapid.IntRange(10, 40).Draw(t, "nfill"); i < n; i++ {
+				c.Ops = append(c.Ops, hop{Op: "dep", Added: []int{3}}, hop{Op: "dep", Removed: []int{3}})
+			}
+		}
+		var cfgs, epss, deps []hop
+		for i, n := 0, rapid.IntRange(1, 12).Draw(t, "ncfg"); i < n; i++ {
+			cfg := rapid.IntRange(1, 6).Draw(t, "cfg")
+			if rapid.IntRange(0, 6).Draw(t, "invalid") == 0 {
+				cfg = 0
+			}
+			cfgs = append(cfgs, hop{Op: "cfg", Svc: rapid.IntRange(0, 1).Draw(t, "csvc"), Cfg: cfg})
+		}
+		for i, n := 0, rapid.IntRange(1, 12).Draw(t, "neps"); i < n; i++ {
+			o := hop{Op: "eps", Svc: rapid.IntRange(0, 1).Draw(t, "esvc"), EpAdd: genEps(t, "add", 4)}
+			if rapid.IntRange(0, 2).Draw(t, "rem") == 0 {
+				o.EpRem = genEps(t, "rem", 3)
+			}
+			epss = append(epss, o)
+		}
+		for i, n := 0, rapid.IntRange(0, 8).Draw(t, "ndep"); i < n; i++ {
+			if rapid.Bool().Draw(t, "dadd") {
+				deps = append(deps, hop{Op: "dep", Added: []int{rapid.IntRange(2, 3).Draw(t, "dsvc")}})
+			} else {
+				deps = append(deps, hop{Op: "dep", Removed: []int{rapid.IntRange(2, 3).Draw(t, "dsvc")}})
+			}
+		}
+		c.Streams = [][]hop{cfgs, epss, deps}
+		vh.CurrentCase(prop, "converge", c)
+		for rep := 0; rep < 6; rep++ {
+			if _, v := checkHist(c, "svc-"); v != nil {
+				vh.ClearCurrentCase()
+				vh.Fail(t, vh.Failure{Property: prop, Part: "converge", Signature: v.sig, Message: v.msg, Case: c})
+			}
+		}
+		vh.ClearCurrentCase()
+		vh.Rec().Case("converge-streams", true, vh.JSON(c))
+		vh.Rec().ClassN("converge-streams", "concurrent_stream_updates", int64(len(cfgs)+len(epss)+len(deps))*6)
+		vh.Rec().Sample("converge-streams", true, func() interface{} { return c })
 	})
 }
 
